@@ -103,6 +103,23 @@ class Expr(metaclass=UFLType):
         """
         return self.ufl_operands
 
+    def __setstate__(self, state):
+        """Restore pickled state without the cached hash.
+
+        Hashes of terminals are string hashes, which differ between
+        processes, so a pickled hash must not be reused.
+        """
+        if isinstance(state, tuple) and len(state) == 2:
+            state, slots = state
+        else:
+            slots = None
+        if state:
+            self.__dict__.update(state)
+        if slots:
+            for name, value in slots.items():
+                setattr(self, name, value)
+        self._hash = None
+
     def __init__(self):
         """Initialise."""
         self._hash = None
